@@ -913,7 +913,7 @@ Lemma model_anchored :
   jit_init_copies = true /\ jit_init_donates = [] /\ jit_step_donates = [0] /\ jit_final_donates = [1] /\
   blockify_sort_reverse = true /\ jit_run_is_sequential_loop = true /\ debug_run_is_sequential_loop = true /\
   api_binds_via_get = true /\ api_passes_step_results_through = true /\ api_drops_unit_step_results = true /\
-  pmap_inputs_are_stacked_copies = true.
+  pmap_inputs_are_stacked_copies = true /\ module_has_no_nondeterminism_source = true.
 Proof. repeat split; reflexivity. Qed.
 
 (* ------------------------------------------------------------------------ *)
